@@ -93,7 +93,10 @@ def check(case):
 
     opts = {"extractors": build_extractors(case["extractors"]), "serializer_hook": serializer_hook, "serialize": False, "check_context": True, "allow_early_finish": True}
     sink = "memorylogger" if case.get("memorylogger") else "memory"
+    del H.ITERATORS[:]
     run = P.run_program(case["program"], sink=sink, opts=opts, destinations=destinations)
+    used_up = [g for g in H.ITERATORS if list(g) != [0, 1, 2]]
+    require(not used_up, "application-object-consumed", lambda: "%d of %d one-shot iterators logged as field values were (partly) consumed by logging" % (len(used_up), len(H.ITERATORS)))
     if run.errors:
         e = run.errors[0]
         raise Violation("api-raised:%s:%s:%s" % (e["call"], e["exception"].split(":")[0], e["where"]), repr(run.errors))
